@@ -153,6 +153,7 @@ func (g *extGen) ext() *model.Ext {
 		g.dupName, g.parentName = map[string]bool{}, map[string]bool{}
 	}
 	attached := false
+	var dupOf *model.Ext
 	if len(g.made) > 0 && g.r.Chance(1, 3) {
 		p := g.made[g.r.Intn(len(g.made))]
 		var names []string
@@ -175,6 +176,22 @@ func (g *extGen) ext() *model.Ext {
 			e.Mime, e.Parent, e.ParentExt = q.Mime, q.Parent, q.ParentExt
 			g.dupName[q.Mime] = true
 			attached = true
+			// the second registration may repeat the first one's file extension and alias
+			// list too (a format with two alternative signatures; set-up code that runs
+			// twice): it is still a registration of its own, in front of everything
+			// registered on that parent since
+			if g.r.Chance(1, 2) {
+				e.Extension = q.Extension
+			}
+			if g.r.Chance(1, 2) {
+				free := true
+				for _, a := range q.Aliases {
+					free = free && !g.parentName[a]
+				}
+				if free {
+					dupOf = q
+				}
+			}
 		}
 	}
 	if g.r.Chance(1, 5) && g.charsetNamesOn {
@@ -195,8 +212,18 @@ func (g *extGen) ext() *model.Ext {
 		e.Parent, target = p.Name, p.Fams
 	}
 	e.Pred = g.pred(target)
-	for j, n := 0, g.r.Intn(4); j < n; j++ {
-		e.Aliases = append(e.Aliases, fmt.Sprintf("x-verif/a%d-%d", id, j))
+	if dupOf != nil {
+		e.Aliases = append([]string(nil), dupOf.Aliases...)
+		for _, a := range e.Aliases {
+			g.dupName[a] = true
+		}
+		if g.r.Chance(1, 3) {
+			e.Pred = dupOf.Pred
+		}
+	} else {
+		for j, n := 0, g.r.Intn(4); j < n; j++ {
+			e.Aliases = append(e.Aliases, fmt.Sprintf("x-verif/a%d-%d", id, j))
+		}
 	}
 	e.SpareCap = []int{0, 0, 1, 2, 8}[g.r.Intn(5)]
 	if len(g.arrays) > 0 && len(e.Aliases) > 0 && g.r.Chance(1, 3) {
